@@ -351,7 +351,14 @@ func runC12Fault(sc *Scenario, f Fault, base Event, st *Stats) []Violation {
 	var rs []StmtRes
 	for si := 0; si <= base.Stmt && si < len(sc.Hist); si++ {
 		h := &sc.Hist[si]
-		r := execStmt(w.H, si, h.Stmt(), sc.Cfg)
+		hs := h.Stmt()
+		if si == base.Stmt {
+			hs.PollAfterErr = true
+			if len(hs.Extra) < 2 {
+				hs.Extra = append(append([]string{}, hs.Extra...), "next", "batch")
+			}
+		}
+		r := execStmt(w.H, si, hs, sc.Cfg)
 		rs = append(rs, r)
 		if si < base.Stmt {
 			if r.Err == "" && r.BuildErr == "" && !h.ExpectFail() {
@@ -404,10 +411,14 @@ func runC12Fault(sc *Scenario, f Fault, base Event, st *Stats) []Violation {
 		} else if !isFaultErr(r.ErrObj, ev.Err) {
 			add("fault-error-replaced", fmt.Sprintf("the caller received %q instead of the storage error %s", oneLine(r.Err, 80), ev.Err))
 		}
-		if len(w.H.log) > f.Call+1 {
-			nx := w.H.log[f.Call+1]
+		for _, nx := range w.H.log[f.Call+1:] {
 			if isMutating(nx.Op) {
-				add("write-after-failed-write", fmt.Sprintf("after the failed write the statement issued %s %s%v", nx.Op, nx.Key, nx.Keys))
+				if nx.Poll == ev.Poll {
+					add("write-after-failed-write", fmt.Sprintf("after the failed write the statement issued %s %s%v", nx.Op, nx.Key, nx.Keys))
+				} else {
+					add("write-reissued-on-later-poll", fmt.Sprintf("the write failed in poll %d; polling the plan again (poll %d) issued %s %s%v: the writes are not issued exactly once", ev.Poll, nx.Poll, nx.Op, nx.Key, nx.Keys))
+				}
+				break
 			}
 		}
 		dump, _ := w.Core.Dump()
